@@ -12,12 +12,21 @@ PRSS_FUNCS = ('pseudorandom_share', 'np_pseudorandom_share', 'pseudorandom_share
 
 
 # ------------------------------------------------------------------------------------------ PC1
-def rule_PC1(ctx, rep):
+def rule_PC1(ctx, rep, scope=None):
     """no_pc purity: nothing reachable after an await in an mpc_coro_no_pc coroutine consumes the
-    program counter (such code runs from a bare Task step under the ambient counter)."""
+    program counter (such code runs from a bare Task step under the ambient counter).
+    scope: qualnames (of module runtime) to restrict the rule to; a coroutine in scope that forks its own
+    counter (mpc_coro) discharges the obligation directly."""
     fa = ctx.flow
     n = 0
     for k, fn in sorted(ctx.model.funcs.items()):
+        if scope is not None:
+            if fn.module != 'runtime' or fn.qualname not in scope:
+                continue
+            if fn.kind == 'pc':
+                n += 1
+                rep.ok('PC1', fn, f'{fn.qualname} [own program counter]', 'mpc_coro: messages are labelled under a counter forked for this call', fn.node)
+                continue
         if fn.kind != 'nopc':
             continue
         n += 1
